@@ -4,6 +4,11 @@
      Feature.from_biopython / to_biopython (the codon_start adjustment; frameshift lives in Common/Loc.v)
      antismash/common/secmet/features/prepeptide.py : Prepeptide.to_biopython (leader/core/tail locations)
      antismash/modules/tta/tta.py : TTAResults.new_feature_from_other
+     antismash/common/secmet/features/cds_feature.py : CDSFeature.from_biopython (the flow of the location
+       through the frameshift, the generated translation, the constructor and Feature.from_biopython),
+       CDSFeature.__init__ / Feature.__init__ / the translation setter, _ensure_valid_translation
+     antismash/common/secmet/record.py : Record.get_aa_translation_from_location
+     Feature.to_biopython (codon_start qualifier and restored location)
    and a specification-side model of Biopython's location.extract and of translation by codons.
    A location is the list of its parts (one part = FeatureLocation, several = CompoundLocation),
    strands 1, -1, 0, 2 (None) as in Common/Loc.v.  No proofs here. *)
@@ -97,20 +102,6 @@ Definition codon_start_path (l : loc) (cs s e : Z) : list Z :=
   | Ok l' => 0 :: eLoc l' ++ eRes eLoc (get_sub l' false false s e) ++ eRes eLoc (frameshift l' cs true)
   end.
 
-(* ---------- Prepeptide.to_biopython: leader / core / tail locations ---------- *)
-Definition prepeptide_locs (l : loc) (ll tl : Z) : res (list loc) :=
-  let total := llen l / 3 in
-  do leader <- (if 0 <? ll then do x <- get_sub l false false 0 ll; Ok [x] else Ok []);
-  do core <- get_sub l false false ll (total - tl);
-  do tail <- (if 0 <? tl then do x <- get_sub l false false (total - tl) total; Ok [x] else Ok []);
-  Ok (leader ++ [core] ++ tail).
-
-(* ---------- TTAResults.new_feature_from_other ---------- *)
-(* Feature() refuses a negative start with ValueError *)
-Definition tta_marker (l : loc) (offset : Z) : res loc :=
-  let start := if lstrand l =? 1 then lstart l + offset else lend l - offset - 3 in
-  if start <? 0 then Err E_Value else Ok [mkPart start (start + 3) (lstrand l)].
-
 (* ---------- specification side: extraction and translation ---------- *)
 Fixpoint zrange_n (a : Z) (n : nat) : list Z :=
   match n with O => [] | S m => a :: zrange_n (a + 1) m end.
@@ -143,6 +134,119 @@ Definition sublist {A} (u v : Z) (l : list A) : list A :=
   firstn (Z.to_nat (v - u)) (skipn (Z.to_nat u) l).
 
 Definition zlist_eqb (a b : list Z) : bool := list_eqb Z.eqb a b.
+
+(* ---------- the loading path of a CDS ---------- *)
+(* residues are character codes; a codon table is the list of its 64 residues, codon (a, b, c) at
+   index 16a + 4b + c (bases A=0 C=1 G=2 T=3), '*' for the stop codons *)
+Definition AA_STOP := 42.
+Definition AA_X := 88.
+Definition AA_M := 77.
+Definition codon_of (tbl : list Z) (a b c : Z) : Z := nth (Z.to_nat (16 * a + 4 * b + c)) tbl AA_X.
+
+(* Seq.translate(to_stop=True) *)
+Fixpoint take_to_stop (l : list Z) : list Z :=
+  match l with
+  | [] => []
+  | x :: r => if x =? AA_STOP then [] else x :: take_to_stop r
+  end.
+(* for invalid in "*BJOUZ": replace by X *)
+Definition replace_invalid (x : Z) : Z :=
+  if existsb (Z.eqb x) [42; 66; 74; 79; 85; 90] then AA_X else x.
+
+(* Record.get_aa_translation_from_location on a record of n unambiguous bases without gaps: the
+   trailing 1-2 bases are dropped (translate does that), translation up to the first stop, or of
+   everything when that is empty *)
+Definition aa_translation (tbl : list Z) (sq : Z -> Z) (n : Z) (l : loc) : res (list Z) :=
+  if n <? lend l then Err E_Value else
+  let full := translate (codon_of tbl) (extract sq l) in
+  let seq := match take_to_stop full with [] => full | s => s end in
+  Ok (map replace_invalid seq).
+
+(* _ensure_valid_translation without a /translation qualifier and with a record *)
+Definition ensure_translation (tbl : list Z) (sq : Z -> Z) (n : Z) (l : loc) : res (list Z) :=
+  if n <? lend l then Err E_Value else
+  if llen l <? 3 then Err E_Value else
+  aa_translation tbl sq n l.
+
+Fixpoint has_dup (l : list Z) : bool :=
+  match l with
+  | [] => false
+  | x :: r => existsb (Z.eqb x) r || has_dup r
+  end.
+(* Feature.__init__: exons sharing an end, start <= end, no negative coordinate *)
+Definition feature_init (l : loc) : res unit :=
+  if is_compound l && has_dup (map pe l) then Err E_Value else
+  if lend l <? lstart l then Err E_Assert else
+  if lstart l <? 0 then Err E_Value else Ok tt.
+(* _verify_location *)
+Definition verify_location (l : loc) : res unit :=
+  if (lstrand l =? 1) || (lstrand l =? -1) then Ok tt else Err E_Value.
+(* the translation setter: an alternate start codon becomes methionine *)
+Definition mfix (t : list Z) : list Z :=
+  match t with
+  | [] => []
+  | x :: r => if x =? AA_M then t else AA_M :: r
+  end.
+(* CDSFeature.__init__ (exact positions, valid residue characters) -> the stored translation *)
+Definition cds_init (l : loc) (t : list Z) : res (list Z) :=
+  do _ <- feature_init l;
+  do _ <- verify_location l;
+  match t with
+  | [] => Err E_Value
+  | _ => if llen l <? zlen t * 3 then Err E_Value else Ok (mfix t)
+  end.
+
+(* "except ValueError as err: raise SecmetInvalidInputError" (which is itself a ValueError) *)
+Definition as_invalid {A} (r : res A) : res A :=
+  match r with
+  | Err k => if (k =? E_Value) || (k =? E_SecmetInvalid) then Err E_SecmetInvalid else Err k
+  | Ok _ => r
+  end.
+(* "except Exception" *)
+Definition any_as_invalid {A} (r : res A) : res A :=
+  match r with Err _ => Err E_SecmetInvalid | Ok _ => r end.
+
+(* CDSFeature.from_biopython on a feature with a name, without /translation, with a record;
+   cs < 0: no /codon_start qualifier.  The translation is generated from a frame-shifted COPY of
+   the location, the constructor receives bio_feature.location itself, and Feature.from_biopython
+   then shifts the new feature's location (once).
+   Result: the gene's location, its translation, _original_codon_start (-1: None) *)
+Definition cds_from_biopython (tbl : list Z) (sq : Z -> Z) (n : Z) (l : loc) (cs : Z)
+  : res (loc * list Z * Z) :=
+  let has_cs := 0 <=? cs in
+  do _ <- any_as_invalid (verify_location l);
+  do t <- as_invalid (do tl <- (if has_cs then frameshift l cs false else Ok l);
+                      ensure_translation tbl sq n tl);
+  do t' <- cds_init l t;
+  if has_cs then do g <- frameshift l cs false; Ok (g, t', cs - 1) else Ok (l, t', -1).
+
+(* Feature.to_biopython: the location written out and the /codon_start qualifier (-1: none) *)
+Definition cds_to_biopython (g : loc) (ocs : Z) : res (loc * Z) :=
+  if ocs <? 0 then Ok (g, -1) else do r <- frameshift g (ocs + 1) true; Ok (r, ocs + 1).
+
+Definition eLocQ (r : loc * Z) : list Z := eLoc (fst r) ++ [snd r].
+(* load, sub-location of residues [s,e), write out *)
+Definition load_path (tbl : list Z) (sq : Z -> Z) (n : Z) (l : loc) (cs s e : Z) : list Z :=
+  match cds_from_biopython tbl sq n l cs with
+  | Err k => [1; k]
+  | Ok (g, t, ocs) =>
+    0 :: eLoc g ++ eList (fun x => [x]) t ++ [ocs] ++ eRes eLoc (get_sub g false false s e)
+      ++ eRes eLocQ (cds_to_biopython g ocs)
+  end.
+
+(* ---------- Prepeptide.to_biopython: leader / core / tail locations ---------- *)
+Definition prepeptide_locs (l : loc) (ll tl : Z) : res (list loc) :=
+  let total := llen l / 3 in
+  do leader <- (if 0 <? ll then do x <- get_sub l false false 0 ll; Ok [x] else Ok []);
+  do core <- get_sub l false false ll (total - tl);
+  do tail <- (if 0 <? tl then do x <- get_sub l false false (total - tl) total; Ok [x] else Ok []);
+  Ok (leader ++ [core] ++ tail).
+
+(* ---------- TTAResults.new_feature_from_other ---------- *)
+(* Feature() refuses a negative start with ValueError *)
+Definition tta_marker (l : loc) (offset : Z) : res loc :=
+  let start := if lstrand l =? 1 then lstart l + offset else lend l - offset - 3 in
+  if start <? 0 then Err E_Value else Ok [mkPart start (start + 3) (lstrand l)].
 
 (* ---------- decidable guard / classes ---------- *)
 (* parts in ascending coordinate order, non-empty, not overlapping (adjacent allowed), from lo on *)
@@ -185,9 +289,27 @@ Definition spanning_gene (l : loc) : bool :=
       end
     end
   end.
-(* 0: guard holds; 1: origin-spanning well-formed gene; 2: anything else (no verdict) *)
+(* exons in ascending order of which each may overlap the previous one by 1-2 bases (programmed
+   ribosomal frameshift; accepted in input records, which refuse overlaps of 3 or more bases) *)
+Fixpoint slip_b (prev : part) (a : list part) : bool :=
+  match a with
+  | [] => true
+  | p :: r => (pe prev - 2 <=? ps p) && (ps prev <? ps p) && (pe prev <? pe p) && (ps p <? pe p) && slip_b p r
+  end.
+Definition slippage_gene (l : loc) : bool :=
+  match l with
+  | [] => false
+  | p :: _ =>
+    same_strand_b (pst p) l && negb (guard_gene l) &&
+    match ascending l with
+    | [] => false
+    | q :: r => (0 <=? ps q) && (ps q <? pe q) && slip_b q r
+    end
+  end.
+(* 0: guard holds; 1: origin-spanning well-formed gene; 3: exons overlapping by 1-2 bases;
+   2: anything else (no verdict) *)
 Definition gene_class (l : loc) : Z :=
-  if guard_gene l then 0 else if spanning_gene l then 1 else 2.
+  if guard_gene l then 0 else if spanning_gene l then 1 else if slippage_gene l then 3 else 2.
 
 (* ---------- decidable specification on an output ---------- *)
 (* the sub-location for residues [s,e): inside the gene, three bases per residue, and reading
@@ -223,6 +345,34 @@ Definition spec_tta (g : loc) (i : Z) (out : res loc) : bool :=
   | Ok m => contains g m && zlist_eqb (idx m) (sublist i (i + 3) (idx g))
   end.
 
+(* the loaded CDS: gene location g, stored translation t, the sub-location of residues [s,e), and
+   what is written out again, judged against the annotated location l with /codon_start cs:
+   [ the gene's location reads the annotated location from base cs-1 on, inside it;
+     the stored translation is the translation of the gene's location;
+     the sub-location covers the nucleotides that encode residues [s,e) of the stored translation
+       (residue 0 is stored as M whatever its codon; stop codons are stored as X);
+     the location written out is the annotated one, with the same qualifier;
+     range verdict applicable: 0 <= s < e <= number of stored residues ] *)
+Definition same_from (skip_first : bool) (a b : list Z) : bool :=
+  if skip_first then (zlen a =? zlen b) && zlist_eqb (tl a) (tl b) && (match b with x :: _ => x =? AA_M | [] => true end)
+  else zlist_eqb a b.
+Definition spec_load (tbl : list Z) (sq : Z -> Z) (n : Z) (l : loc) (cs s e : Z)
+    (g : loc) (t : list Z) (sub : res loc) (out : res (loc * Z)) : list Z :=
+  let off := if cs <? 0 then 0 else cs - 1 in
+  let in_range := (0 <=? s) && (s <? e) && (e <=? zlen t) in
+  eBool (zlist_eqb (idx g) (skipn (Z.to_nat off) (idx l)) && contains l g)
+  ++ eBool (match aa_translation tbl sq n g with Ok x => zlist_eqb t (mfix x) | Err _ => false end)
+  ++ eBool (match sub with
+            | Ok o => spec_sub g s e o &&
+                      same_from (s =? 0) (map replace_invalid (translate (codon_of tbl) (extract sq o))) (sublist s e t)
+            | Err _ => false
+            end)
+  ++ eBool (match out with
+            | Ok (r, q) => loc_eqb r l && (q =? (if cs <? 0 then -1 else cs))
+            | Err _ => false
+            end)
+  ++ eBool in_range.
+
 (* ---------- flat encoding ---------- *)
 Definition dResLoc : dec (res loc) := fun l =>
   match l with
@@ -236,6 +386,27 @@ Definition dResLocs : dec (res (list loc)) := fun l =>
   | 1 :: k :: r => Some (Err k, r)
   | _ => None
   end.
+Definition dLocQ : dec (loc * Z) := dPair dLoc dZ.
+Definition dResLocQ : dec (res (loc * Z)) := fun l =>
+  match l with
+  | 0 :: r => match dLocQ r with Some (x, r') => Some (Ok x, r') | None => None end
+  | 1 :: k :: r => Some (Err k, r)
+  | _ => None
+  end.
+(* the output of load_path *)
+Definition dLoaded : dec (res (loc * list Z * Z * res loc * res (loc * Z))) := fun l =>
+  match l with
+  | 0 :: r =>
+    match dPair (dPair (dPair dLoc (dList dZ)) dZ) (dPair dResLoc dResLocQ) r with
+    | Some ((g, t, ocs, (sub, out)), r') => Some (Ok (g, t, ocs, sub, out), r')
+    | None => None
+    end
+  | 1 :: k :: r => Some (Err k, r)
+  | _ => None
+  end.
+(* location, codon_start, record bases, codon table, residue range *)
+Definition dLoadIn : dec (loc * Z * (list Z * list Z) * (Z * Z)) :=
+  dPair (dPair (dPair dLoc dZ) (dPair (dList dZ) (dList dZ))) (dPair dZ dZ).
 Definition nonempty_loc (l : loc) : bool := match l with [] => false | _ => true end.
 
 Definition run_C09 (fn : Z) (l : list Z) : list Z :=
@@ -263,6 +434,11 @@ Definition run_C09 (fn : Z) (l : list Z) : list Z :=
   | 6 => match dPair dLoc (dList dZ) l with
          | Some ((a, bases), []) => eList (fun x => [x]) (extract (seq_of bases) a)
          | _ => bad_input end
+  (* 7: CDSFeature.from_biopython; 8: the same through Record.from_biopython / Record.to_biopython *)
+  | 7 | 8 => match dLoadIn l with
+         | Some ((a, cs, (bases, tbl), (s, e)), []) =>
+           if nonempty_loc a then load_path tbl (seq_of bases) (zlen bases) a cs s e else bad_input
+         | _ => bad_input end
   (* specification verdicts on the implementation's output: [spec_ok; gene class] *)
   | 12 => match dPair (dPair dLoc (dPair dBool dBool)) (dPair (dPair dZ dZ) dResLoc) l with
           | Some ((a, _, ((s, e), out)), []) => eBool (spec_sub_res a s e out) ++ [gene_class a]
@@ -272,6 +448,14 @@ Definition run_C09 (fn : Z) (l : list Z) : list Z :=
           | _ => bad_input end
   | 15 => match dPair dLoc (dPair dZ dResLoc) l with
           | Some ((a, (off, out)), []) => eBool (spec_tta a off out) ++ [gene_class a]
+          | _ => bad_input end
+  | 17 | 18 => match dPair dLoadIn dLoaded l with
+          | Some ((a, cs, (bases, tbl), (s, e), out), []) =>
+            match out with
+            | Ok (g, t, _, sub, wr) =>
+              0 :: spec_load tbl (seq_of bases) (zlen bases) a cs s e g t sub wr ++ [gene_class a]
+            | Err k => [1; k; gene_class a]
+            end
           | _ => bad_input end
   | _ => bad_input
   end.
